@@ -639,7 +639,17 @@ def finishBit (b : V4) (width : Nat) : Option Val := expand (.u64 b) width false
 
 namespace U64
 
-def neg (x : V4) (width : Nat) : Option V4 :=
+/-- Unary minus, U64 arm (op.rs, since /repo commit c18109e): `ret.payload ^= mask;
+    ret.payload = ret.payload.wrapping_add(1); ret.payload &= mask`. -/
+def neg (x : V4) (width : Nat) : V4 :=
+  if x.mask ≠ 0 then newX width x.signed
+  else
+    let mask := genMask width
+    { x with payload := wadd (x.payload ^^^ mask) 1 &&& mask }
+
+/-- The arm as it was before commit c18109e (`ret.payload += 1`: debug-profile overflow panic at
+    width 64, operand 0 — DESIGN §5 finding #20). Kept only to document the repaired defect. -/
+def negOld (x : V4) (width : Nat) : Option V4 :=
   if x.mask ≠ 0 then some (newX width x.signed)
   else do
     let mask := genMask width
@@ -941,7 +951,7 @@ def evalUnary (op : Op) (x : Val) (width : Nat) (signed : Bool) : Option Val :=
   | .Sub => do
     let x ← expand x width signed
     match x with
-    | .u64 x => (U64.neg x width).map .u64
+    | .u64 x => some (.u64 (U64.neg x width))
     | .big x => some (.big (Big.neg x width))
   | .BitNot => do
     let x ← expand x width signed
